@@ -410,6 +410,53 @@ def c04(ctx):
                         pass
                 elif r is not None:
                     triage_wire(ctx, 'C04', lang, it, 'decode-error', 'decoder fails on a message with a length field: %s' % r[1][:200], rep)
+        # decoders return the WIRE value: the same messages with the length field's bytes set to another value (true length + 1, and 0);
+        # no decoder uses the field to delimit anything, so everything else must decode as before and the field must come back as sent.
+        # a decoder that rejects such a message is counted, not reported.
+        alt_cases = {}
+        for it in items:
+            out = outs.get(it.tag)
+            if out is None or out.build != 'ok':
+                continue
+            cases = []
+            for i in range(min(2, len(it.msgs))):
+                refb, lay, dec, _ = it.ref[i]
+                lens = [e for e in lay.items if e['fkind'].startswith('len:')]
+                if len(lens) != 1:
+                    continue
+                e = lens[0]
+                le = it.proto.cfg()['le']
+                for tagc, val in (('p', (e['value'] + 1) % (1 << (8 * e['len']))), ('z', 0)):
+                    if val == e['value']:
+                        continue
+                    b2 = bytearray(refb)
+                    b2[e['off']:e['off'] + e['len']] = val.to_bytes(e['len'], 'little' if le else 'big')
+                    cases.append(('%dL%s' % (i, tagc), bytes(b2), e, val))
+            if cases:
+                alt_cases[it.tag] = cases
+        for it in items:
+            if it.tag not in alt_cases:
+                continue
+            o3 = B.run(it, [], [(cid, data) for cid, data, _, _ in alt_cases[it.tag]])
+            if o3.crash:
+                continue
+            for cid, data, e, val in alt_cases[it.tag]:
+                r = o3.dec.get(cid)
+                if r is None:
+                    continue
+                ctx.evaluated(1, key=(it.tag, lang, cid, 'altered-length'))
+                if r[0] == 'ERR':
+                    ctx.counters['altered-length-rejected-by-decoder:' + lang] += 1
+                    continue
+                ctx.counters['altered-length-decodes'] += 1
+                try:
+                    v = refmodel.parse_dump(r[1])
+                except Exception:
+                    continue
+                mask = (1 << (8 * e['len'])) - 1
+                if isinstance(v, dict) and (v.get(e['fname'], 0) or 0) & mask != val & mask:
+                    triage_wire(ctx, 'C04', lang, it, 'decoded-length-wrong', '%s: the wire holds %d (the target really occupies %d bytes), the decoder returns %s' % (e['path'], val, e['value'], v.get(e['fname'])),
+                                {'input_hex': data.hex(), 'wire_value': val, 'true_length': e['value'], 'got': r[1][:400]})
         # second pass: the encoder appends to a buffer that is in use (two copies of message 0 written, the first one consumed by the
         # emitted decoder, then message i appended); the readable bytes must be message 0 followed by message i, length field included.
         # protocols with a checksum field are left out (what "the bytes that precede it in the buffer" means there is a C06 question);
